@@ -24,9 +24,11 @@ struct Tracked {
   explicit Tracked(long i) : id(i) { TrackedLife::born(this); }
   Tracked(const Tracked&) = delete;
   Tracked& operator=(const Tracked&) = delete;
-  Tracked(Tracked&& o) noexcept : id(o.id) { o.id = 0; TrackedLife::born(this); }
+  // construction from / destruction of an element are scheduling points: the windows between a queue's atomic accesses and the element's
+  // life-cycle calls next to them (e.g. a cell handed back to the producers before the moved-from element in it is destroyed) are explored
+  Tracked(Tracked&& o) noexcept : id(o.id) { if (xv::in_child()) xv::point(); o.id = 0; TrackedLife::born(this); }
   Tracked& operator=(Tracked&& o) noexcept { if (this != &o) { drop(); id = o.id; o.id = 0; } return *this; }
-  ~Tracked() { drop(); TrackedLife::died(this); }
+  ~Tracked() { if (xv::in_child()) xv::point(); drop(); TrackedLife::died(this); }
   void drop() { if (id) { xv::ev("ev", "drop", id); id = 0; } }
 };
 struct Item { int x; };
